@@ -971,3 +971,85 @@ func c14r8(rc *core.RC) {
 		rc.Unknown("decoder/CompileToGetDecoder-calls", token.NoPos, "found %d calls of CompileToGetDecoder inside the decoder package (confirmed: interfaceDecoder.Decode and DecodeStream)", n)
 	}
 }
+
+// ---- C14.R9 the dynamic value of an interface is written by the program of its own type only ----
+
+// The OpInterface handler of each interpreter looks up the program compiled for the dynamic type
+// (CompileToGetCodeSet(typ)) and enters it. Before that call the handler may write null (nil interface, nil
+// pointer) and nothing else: a shortcut that writes the value itself for "simple" kinds (string, bool) bypasses the
+// program of a named type of that kind, and with it its MarshalJSON / MarshalText.
+func c14r9(rc *core.RC) {
+	p := rc.P
+	n := 0
+	for _, vm := range []string{"vm", "vm_indent", "vm_color", "vm_color_indent"} {
+		fd := p.Func(vm, "Run")
+		if fd == nil || fd.Body == nil {
+			rc.Unknown(vm+".Run", token.NoPos, "interpreter not found")
+			continue
+		}
+		info := p.Info(fd)
+		key := vm + ".Run/case OpInterface/value-written-by-the-program-of-the-dynamic-type"
+		var clause *ast.CaseClause
+		ast.Inspect(fd.Body, func(m ast.Node) bool {
+			cc, ok := m.(*ast.CaseClause)
+			if !ok {
+				return true
+			}
+			for _, l := range cc.List {
+				if sel, ok := core.Unparen(l).(*ast.SelectorExpr); ok && sel.Sel.Name == "OpInterface" {
+					clause = cc
+				}
+			}
+			return true
+		})
+		if clause == nil {
+			rc.Unknown(key, fd.Pos(), "OpInterface handler not found")
+			continue
+		}
+		rc.Touch(vm + ".Run")
+		n++
+		compiled := false
+		var early []string
+		for _, st := range clause.Body {
+			has := false
+			ast.Inspect(st, func(m ast.Node) bool {
+				if c, ok := m.(*ast.CallExpr); ok && core.CalleeName(info, c) == "encoder.CompileToGetCodeSet" {
+					has = true
+				}
+				return true
+			})
+			if has {
+				compiled = true
+				break
+			}
+			// writes in front of the lookup
+			ast.Inspect(st, func(m ast.Node) bool {
+				as, ok := m.(*ast.AssignStmt)
+				if !ok || len(as.Lhs) != 1 || len(as.Rhs) != 1 {
+					return true
+				}
+				if t := info.TypeOf(as.Lhs[0]); t == nil || t.String() != "[]byte" {
+					return true
+				}
+				c, isCall := core.Unparen(as.Rhs[0]).(*ast.CallExpr)
+				if !isCall {
+					return true
+				}
+				name := core.CalleeName(info, c)
+				if strings.HasSuffix(name, ".appendNullComma") || strings.HasSuffix(name, ".appendNull") {
+					return true
+				}
+				early = append(early, core.Src(p.Fset, as))
+				return true
+			})
+		}
+		if !compiled {
+			rc.Bad(key, clause.Pos(), "the handler never looks up the program of the dynamic type (no call of CompileToGetCodeSet)")
+			continue
+		}
+		rc.Check(len(early) == 0, key, clause.Pos(), "in front of the lookup of the dynamic type's program the handler writes nothing but null%s", map[bool]string{true: "", false: "; it writes: " + strings.Join(early, "; ") + " (a named type of that kind has a program of its own, with its marshaler)"}[len(early) == 0])
+	}
+	if n < 4 {
+		rc.Unknown("vm/interface-handlers", token.NoPos, "found %d OpInterface handlers", n)
+	}
+}
